@@ -69,21 +69,32 @@ pub fn alias_tok(l: &AliasLimits) -> String {
 }
 
 pub fn one(sink: &mut Sink, text: &str, items: &str, budget: &Option<Budget>, limits: AliasLimits, stop: bool) {
+    one_capped(sink, text, items, budget, limits, stop, usize::MAX);
+}
+
+/// like `one`, but a run that delivers more than `cap` events is not handed to the model (whose recording buffers are
+/// plain lists: quadratic in the size of an anchored node); returns the number of delivered events in that case
+pub fn one_capped(sink: &mut Sink, text: &str, items: &str, budget: &Option<Budget>, limits: AliasLimits, stop: bool, cap: usize) -> Option<usize> {
     let bt = match budget { None => "-".to_string(), Some(bd) => format!("0 {}", crate::c07::limits_tok(bd)) };
     let d = match catch(|| h::live_events_from_str(text, budget.clone(), limits, stop, 1_000_000)) {
         Ok(d) => d,
         Err(msg) => {
             sink.count("panic");
             sink.case(&format!("pump drain {} {} {} {}", b(stop), bt, alias_tok(&limits), items), &format!("panic {}", hex(&msg)));
-            return;
+            return None;
         }
     };
+    if d.events.len() > cap {
+        sink.count("impl_only.too_large_for_model");
+        return Some(d.events.len());
+    }
     match &d.error {
         None => sink.count("end.eof"),
         Some(e) => sink.count(&format!("end.{}", crate::errs::pump_tok(e).split(' ').next().unwrap())),
     }
     if d.finish_error.is_some() { sink.count("finish.err"); }
     sink.case(&format!("pump drain {} {} {} {}", b(stop), bt, alias_tok(&limits), items), &dump_tok(&d));
+    None
 }
 
 /// Expansion on the generator's tree: every alias replaced by a copy of the node most recently anchored
